@@ -304,6 +304,10 @@ def run_history(EoReader, data, ops, info=None):
             else:
                 if isinstance(exp, bytearray):
                     same = isinstance(got, (bytes, bytearray)) and bytes(got) == bytes(exp)
+                    if isinstance(got, bytearray):
+                        # the returned array belongs to the caller, who may reuse it: scribble over it so
+                        # that a buffer the reader keeps sharing shows up in a later read
+                        got.extend(b"\xaa\xbb\xcc")
                 else:
                     same = type(got) is type(exp) and got == exp
                 if not same:
